@@ -7,17 +7,23 @@ One op line = a scenario name, its parameters `p`, a list of named access paths 
 names starting at a named root object, e.g. `rid.tc_packet_id`, `pdu.pdu_header.pdu_conf.source_entity_id`)
 and, optionally, the `claim` the generator derived from an earlier answer of this very op.
 
-A scenario is a *setup* (the objects the caller holds) followed by ONE library call (*act*). The answer:
+A scenario is a *setup* (the objects the caller holds) followed by ONE library call (*act*).
+`heap_alias_predict` (asked by the generator) answers the whole predicted graph:
 
 * `objects`   – the paths that denote a mutable library object (not `None`, not a scalar) after the call;
 * `classes`   – the partition of those paths into identity classes (paths denoting the SAME object);
 * `separated` – every unordered pair of paths in different classes, as `"p|q"`;
 * `written`   – the paths that existed before the call and whose view (`Heap.view`: everything readable
-                through that object) is different after it;
-* `claim_ok`  – the line's `claim` (if any) is exactly this prediction (a stale replay file shows up here);
+                through that object) is different after it.
+
+`heap_alias` (the compared op; the line carries that prediction as `claim`) answers exactly the keys of the
+implementation op of the same name (`harness/props/c11.py`):
+
+* `objects`;
+* `claim_ok`  – the line's `claim` is exactly this model's prediction (a stale replay file shows up here);
 * `separated_broken`, `unexpected_writes` – always empty on the model side: the implementation op lists here
   the claimed-separated pairs it finds to be one object, and the objects it finds modified although the
-  model does not predict it (see `harness/props/c11.py`, op of the same name).
+  model does not predict it.
 -/
 namespace SpVerif.Ops.Heap
 open SpVerif.J SpVerif.Heap Lean
@@ -354,20 +360,27 @@ def claimOk (j : Json) (g : Graph) : Bool :=
     | .ok a, .ok b, .ok o => a == g.separated && b == g.written && o == g.objects
     | _, _, _ => false
 
-def ops : List (String × Handler) := [
-  ("heap_alias", fun j => do
-    let name ← getStr j "scenario"
-    let p ← field j "p"
-    let paths ← strList j "paths"
-    match scenario name p with
-    | none => .error s!"heap_alias: unknown scenario {name} / kind"
-    | some scn =>
-      match graph scn paths with
-      | none => pure (obj [("err", js "attribute")])
-      | some g =>
+/-- `full`: the whole predicted graph (what the generator asks for); otherwise exactly the keys the implementation op answers -/
+def handler (full : Bool) : Handler := fun j => do
+  let name ← getStr j "scenario"
+  let p ← field j "p"
+  let paths ← strList j "paths"
+  match scenario name p with
+  | none => .error s!"heap_alias: unknown scenario {name} / kind"
+  | some scn =>
+    match graph scn paths with
+    | none => pure (obj [("err", js "attribute")])
+    | some g =>
+      if full then
         pure (obj [("ok", obj [("objects", jstrs g.objects), ("classes", jarr (g.classes.map jstrs)),
-          ("separated", jstrs g.separated), ("written", jstrs g.written), ("claim_ok", jb (claimOk j g)),
-          ("separated_broken", jarr []), ("unexpected_writes", jarr [])])]))
+          ("separated", jstrs g.separated), ("written", jstrs g.written)])])
+      else
+        pure (obj [("ok", obj [("objects", jstrs g.objects), ("claim_ok", jb (claimOk j g)),
+          ("separated_broken", jarr []), ("unexpected_writes", jarr [])])])
+
+def ops : List (String × Handler) := [
+  ("heap_alias", handler false),
+  ("heap_alias_predict", handler true)
 ]
 
 end SpVerif.Ops.Heap
